@@ -5,6 +5,7 @@ import EpdVerif.Drivers.Epd4in2
 import EpdVerif.Drivers.Epd1in54
 import EpdVerif.Drivers.Epd2in9
 import EpdVerif.Drivers.Epd2in7_v2
+import EpdVerif.Drivers.Epd1in54_v2
 /-!
 # C07 per panel: `clear_frame` for EVERY background colour from ANY controller state (session 4)
 
@@ -13,7 +14,7 @@ exactly one block of the plane's size, whatever the planes held before (from `dt
 Per panel the program's block list is obtained for a symbolic driver state (`rfl`), so the
 statement holds for every background colour, not for the sampled ones: epd2in7, epd4in2 (UC81xx)
 and — from ANY awake controller state in data-entry mode 3, whatever window and counters an earlier
-partial update left — epd1in54, epd2in9, epd2in7_v2 (SSD16xx, `ssd_window_then_fill`).
+partial update left — epd1in54, epd2in9, epd2in7_v2, epd1in54_v2 (both planes; SSD16xx, `ssd_window_then_fill`).
 The drivers with listed C07 findings cannot have such a theorem; the remaining drivers are
 decided by the oracle on every colour × history class.
 -/
@@ -262,5 +263,95 @@ theorem epd2in7_v2_clear_uniform (f : Feat) (d : DState) (s : Ssd) (hu : s.aslee
   have e1 : 21 - 0 + 1 = 22 := rfl
   rw [e1, Nat.zero_add, Nat.zero_add] at this
   exact this
+
+/-- window + counter blocks, then a fill of BOTH planes with the window's size each (the first fill
+    returns the address counter to the window origin): both windows uniform, two episodes `count = stored` -/
+theorem ssd_window_then_two_fills (s : Ssd) (a b c c' d d' : UInt8) (v1 v2 : UInt8) (n : Nat)
+    (hu : s.asleep = false) (hxp : s.xPix = false) (h3 : s.entry = 3)
+    (hbw : s.bw.size = s.stride * s.rows) (hred : s.red.size = s.stride * s.rows)
+    (hx : a.toNat % 64 ≤ b.toNat % 64) (hy : Ssd.word c c' % 1024 ≤ Ssd.word d d' % 1024)
+    (hs : b.toNat % 64 < s.stride) (hr : Ssd.word d d' % 1024 < s.rows)
+    (hn : n = (b.toNat % 64 - a.toNat % 64 + 1) * (Ssd.word d d' % 1024 - Ssd.word c c' % 1024 + 1))
+    (s' : Ssd) (hs' : s' = s.run [Blk.c 0x44 [a, b], .c 0x45 [c, c', d, d'], .c 0x4E [a], .c 0x4F [c, c'],
+      .c 0x24 (List.replicate n v1), .c 0x26 (List.replicate n v2)]) :
+    (∀ k, k < n → s'.bw[(Ssd.word c c' % 1024 + k / (b.toNat % 64 - a.toNat % 64 + 1)) * s.stride
+        + (a.toNat % 64 + k % (b.toNat % 64 - a.toNat % 64 + 1))]? = some v1) ∧
+    (∀ k, k < n → s'.red[(Ssd.word c c' % 1024 + k / (b.toNat % 64 - a.toNat % 64 + 1)) * s.stride
+        + (a.toNat % 64 + k % (b.toNat % 64 - a.toNat % 64 + 1))]? = some v2) ∧
+    ((s'.epis.take 2).map fun e => (e.plane, e.count, e.stored)) = [(1, n, n), (0, n, n)] := by
+  have q := C06.ssd_addr_seq s a b c c' d d' hu hxp
+  simp only [] at q
+  generalize hs1 : s.run [Blk.c 0x44 [a, b], .c 0x45 [c, c', d, d'], .c 0x4E [a], .c 0x4F [c, c']] = s1 at q
+  obtain ⟨qxs, qxe, qys, qye, qcx, qcy, qa, qe, qst, qro, qbw, qred, qep⟩ := q
+  have es' : s' = (s1.feed (.c 0x24 (List.replicate n v1))).feed (.c 0x26 (List.replicate n v2)) := by
+    rw [hs', ← hs1]
+    simp only [Ssd.run, List.foldl]
+  have hl : (List.replicate n v1).length = (s1.xe - s1.xs + 1) * (s1.ye - s1.ys + 1) := by
+    rw [qxe, qxs, qye, qys, List.length_replicate]; exact hn
+  have k1 := Ssd.feed_c24_window_fill s1 (List.replicate n v1) qa (by rw [qe, h3]) (by rw [qxs, qxe]; exact hx)
+    (by rw [qys, qye]; exact hy) (by rw [qxe, qst]; exact hs) (by rw [qye, qro]; exact hr)
+    (by rw [qbw, qst, qro]; exact hbw) (by rw [qred, qst, qro]; exact hred) (by rw [qcx, qxs]) (by rw [qcy, qys]) hl
+  generalize hs2 : s1.feed (.c 0x24 (List.replicate n v1)) = s2 at k1 es'
+  obtain ⟨e1, ⟨c1x, c1y⟩, w1, ⟨o1, z1, r1⟩, cfg⟩ := k1
+  have hl2 : (List.replicate n v2).length = (s2.xe - s2.xs + 1) * (s2.ye - s2.ys + 1) := by
+    rw [cfg.xe, cfg.xs, cfg.ye, cfg.ys, List.length_replicate, ← List.length_replicate (n := n) (a := v1)]; exact hl
+  have k2 := Ssd.feed_c26_window_fill s2 (List.replicate n v2) (by rw [cfg.asleep]; exact qa) (by rw [cfg.entry, qe, h3])
+    (by rw [cfg.xs, cfg.xe, qxs, qxe]; exact hx) (by rw [cfg.ys, cfg.ye, qys, qye]; exact hy)
+    (by rw [cfg.xe, cfg.stride, qxe, qst]; exact hs) (by rw [cfg.ye, cfg.rows, qye, qro]; exact hr)
+    (by rw [z1, cfg.stride, cfg.rows, qbw, qst, qro]; exact hbw) (by rw [r1, cfg.stride, cfg.rows, qred, qst, qro]; exact hred)
+    (by rw [c1x, cfg.xs]) (by rw [c1y, cfg.ys]) hl2
+  obtain ⟨e2, _, w2, ⟨_, _, b2⟩, _⟩ := k2
+  rw [es']
+  refine ⟨?_, ?_, ?_⟩
+  · intro k hk
+    rw [b2]
+    have := w1 k (by rw [List.length_replicate]; exact hk)
+    rw [qxe, qxs, qys, qst] at this
+    rw [this]; simp
+  · intro k hk
+    have := w2 k (by rw [List.length_replicate]; exact hk)
+    rw [cfg.xe, cfg.xs, cfg.ys, cfg.stride, qxe, qxs, qys, qst] at this
+    rw [this]; simp
+  · rw [e2, e1]
+    simp
+
+open Drivers.Epd1in54_v2 in
+theorem epd1in54_v2_clear_blocks (f : Feat) (d : DState) :
+    blocksOf ((prog f d .clear).getD []) =
+      [.c 0x44 [0, 24], .c 0x45 [0, 0, 199, 0], .c 0x4E [0], .c 0x4F [0, 0],
+       .c 0x24 (List.replicate (Gen.Epd1in54_v2.WIDTH / 8 * Gen.Epd1in54_v2.HEIGHT) (byteValue d.bg) ++ []),
+       .c 0x26 (List.replicate (Gen.Epd1in54_v2.WIDTH / 8 * Gen.Epd1in54_v2.HEIGHT) (byteValue d.bg) ++ [])] := rfl
+
+open Drivers.Epd1in54_v2 in
+/-- **epd1in54_v2 `clear_frame`, every background colour, ANY awake controller state in data-entry mode 3**:
+    BOTH RAM planes end uniformly equal to the colour's byte value, each written exactly once -/
+theorem epd1in54_v2_clear_uniform (f : Feat) (d : DState) (s : Ssd) (hu : s.asleep = false) (hxp : s.xPix = false)
+    (h3 : s.entry = 3) (hst : s.stride = 25) (hro : s.rows = 200) (hbw : s.bw.size = 25 * 200) (hred : s.red.size = 25 * 200) :
+    let s' := s.run (blocksOf ((prog f d .clear).getD []))
+    (∀ k, k < 5000 → s'.bw[(k / 25) * 25 + k % 25]? = some (byteValue d.bg)) ∧
+    (∀ k, k < 5000 → s'.red[(k / 25) * 25 + k % 25]? = some (byteValue d.bg)) ∧
+    ((s'.epis.take 2).map fun e => (e.plane, e.count, e.stored)) = [(1, 5000, 5000), (0, 5000, 5000)] := by
+  intro s'
+  have e : Gen.Epd1in54_v2.WIDTH / 8 * Gen.Epd1in54_v2.HEIGHT = 5000 := by decide
+  have hs' : s' = s.run [Blk.c 0x44 [0, 24], .c 0x45 [0, 0, 199, 0], .c 0x4E [0], .c 0x4F [0, 0],
+      .c 0x24 (List.replicate 5000 (byteValue d.bg)), .c 0x26 (List.replicate 5000 (byteValue d.bg))] := by
+    show s.run _ = _
+    rw [epd1in54_v2_clear_blocks, List.append_nil, e]
+  have a1 : (0 : UInt8).toNat % 64 = 0 := by decide
+  have a2 : (24 : UInt8).toNat % 64 = 24 := by decide
+  have a3 : Ssd.word 0 0 % 1024 = 0 := by decide
+  have a4 : Ssd.word 199 0 % 1024 = 199 := by decide
+  have k := ssd_window_then_two_fills s 0 24 0 0 199 0 (byteValue d.bg) (byteValue d.bg) 5000 hu hxp h3
+    (by rw [hst, hro]; exact hbw) (by rw [hst, hro]; exact hred) (by rw [a1, a2]; omega) (by rw [a3, a4]; omega)
+    (by rw [a2, hst]; omega) (by rw [a4, hro]; omega) (by rw [a1, a2, a3, a4]) s' hs'
+  rw [a1, a2, a3, hst] at k
+  have e1 : 24 - 0 + 1 = 25 := rfl
+  refine ⟨fun k' hk' => ?_, fun k' hk' => ?_, k.2.2⟩
+  · have := k.1 k' hk'
+    rw [e1, Nat.zero_add, Nat.zero_add] at this
+    exact this
+  · have := k.2.1 k' hk'
+    rw [e1, Nat.zero_add, Nat.zero_add] at this
+    exact this
 
 end EpdVerif.Props.C07
